@@ -5,7 +5,7 @@ func init() {
 		ID:         "C31",
 		Level:      "other",
 		Technique:  "nil-guard dominance (CFG edges + short-circuit facts) over all reflection accessor closures, fast-path entry points and all generated getters (static)",
-		Explain:    "Decides structural necessary conditions of typed-nil safety: (1) every has/get/which accessor closure in the reflection tables and every getter closure returned by the getterFor* constructors uses its pointer argument only under !p.IsNil(); (2) the read-only fast-path entry points (sizePointer, marshalAppendPointer, checkInitializedPointer, mergePointer source) call p.Apply only under !p.IsNil(); (3) every generated Get*/Has*/Which* method in every .pb.go of the loaded packages dereferences its receiver only under x != nil.",
+		Explain:    "Decides structural necessary conditions of typed-nil safety: (1) every has/get/which accessor closure in the reflection tables and every getter closure returned by the getterFor* constructors uses its pointer argument only under !p.IsNil(); (2) the read-only fast-path entry points (sizePointer, marshalAppendPointer, checkInitializedPointer, mergePointer source) call p.Apply only under !p.IsNil(); (3) every generated Get*/Has*/Which* method in every .pb.go of the loaded packages dereferences its receiver only under x != nil. Also: accessor closures stored into table fields (oi.which = func…) are covered, and proto.Equal distinguishes an invalid from a valid message in both argument orders.",
 		NotCovered: "that the value returned for nil equals the empty-message value (behavioural); protojson/prototext Format of typed nil beyond panic freedom of the accessors they call.",
 		Quick:      all("./internal/impl", "./types/...", "./proto"),
 		Thorough:   all("./..."),
